@@ -61,3 +61,14 @@ Proof. exact (@EmptyMsg.empty_message_silent). Qed.
 End T_empty_message_silent.
 Definition C09_empty_message_silent := @T_empty_message_silent.C09_empty_message_silent.
 
+Module T_parse_is_local_t. Import MultiMsg. Local Open Scope bool_scope. Local Open Scope Z_scope.
+Import ParserModel Chunk Fuel. Local Open Scope Z_scope.
+Theorem C09_parse_is_local_t :
+  forall d tm c a0 rest y,
+  tm = 10%N \/ tm = 13%N -> mem c = a0 ++ tm :: rest -> no_nl a0 ->
+  scpi_parse (upd_mem c (mem c ++ y)) (Z.of_nat (length a0) + 1) d =
+  (let '(c1, r) := scpi_parse c (Z.of_nat (length a0) + 1) d in (upd_mem c1 (mem c1 ++ y), r)).
+Proof. exact (@MultiMsg.parse_is_local_t). Qed.
+End T_parse_is_local_t.
+Definition C09_parse_is_local_t := @T_parse_is_local_t.C09_parse_is_local_t.
+
